@@ -685,3 +685,9 @@ mod tests {
         assert!(!data.contains("transfer-encoding: chunked\r\n"));
     }
 }
+
+#[cfg(kani)]
+#[allow(semicolon_in_expressions_from_non_local_macros, unused)]
+mod verif_kani {
+    include!(concat!(env!("VERIF_HARNESS"), "/actix_http/h1_encoder.rs"));
+}
